@@ -8,7 +8,7 @@ the DAG: one node entry per graph node in graph order (synthetic ones virtual an
 their declared type, name, verbose name, generic flag), one edge entry per graph edge with source / target / id, the type
 table = the set of types of the nodes, JSON round trip, and the DAG left untouched.
 
-Bound: 16 templates x 4 decorations of the node classes; node names free of '->' (colliding edge ids for such names are a
+Bound: 17 templates x 4 decorations of the node classes; node names free of '->' (colliding edge ids for such names are a
 recorded known finding).
 
 usage: /venv/bin/python bounded/viewer.py [--json FILE]
@@ -204,7 +204,7 @@ def main():
                                      expected='the DAG is not modified'))
     import shutil
     shutil.rmtree(root, ignore_errors=True)
-    result = dict(harness='bounded/viewer.py', bound='16 templates x 4 decorations of the node classes (plain, user-defined types incl. one '
+    result = dict(harness='bounded/viewer.py', bound='17 templates x 4 decorations of the node classes (plain, user-defined types incl. one '
                   'starting like a built-in one, untyped / verbose names, generic output node with its own names)', cases=n_cases,
                   failures=failures)
     if '--json' in sys.argv:
